@@ -122,8 +122,8 @@ TwinOK ==
 Terminates == <>(pc \in {"done", "panic"})
 
 (* Refinement of the module whose invariants are PROVED for every length by TLAPS (PartitionAlg.tla, proofs in PartitionProof.tla): every      *)
-(* behaviour of this machine with an in-range pivot position is a behaviour of that one, reading the 1-based     *)
-(* sequences as 0-based functions.  Checked by TLC in the configurations that explore in-range positions only.   *)
+(* behaviour of this machine - pivot position in range or not - is a behaviour of that one, reading the 1-based  *)
+(* sequences as 0-based functions.                                                                               *)
 ZeroBased(s) == [x \in 0..(Len(s) - 1) |-> s[x + 1]]
 PP == INSTANCE PartitionAlg WITH Len0 <- Len(init), Arr0 <- ZeroBased(init), P0 <- p0, arr <- ZeroBased(arr)
 RefinesProof == PP!Spec
